@@ -137,3 +137,11 @@ uint64_t drv_vss_strarr_pack(uint8_t *packed, char **strs, const uint16_t *lens,
     Avtp_Vss_SerializeStringArray(&arr, inp, (uint16_t)n);
     return ((uint64_t)arr.data_length << 16) | Avtp_Vss_GetVSSDataStringArrayLength(&arr);
 }
+
+/* the length query of a packed string array whose descriptor says `len` bytes (a read: the block may lie in read-only memory) */
+uint64_t drv_vss_strarr_count(uint8_t *packed, uint16_t len) {
+    VssDataStringArray_t arr;
+    arr.data_length = len;
+    arr.data = packed;
+    return Avtp_Vss_GetVSSDataStringArrayLength(&arr);
+}
